@@ -790,6 +790,19 @@ TrXHash == IsOp("x_hash") /\ KeepAll /\ UNCHANGED sw
                /\ ((DV(E.a) = DV(E.b) /\ E.ta = E.tb) => E.same_epoch)
 (* iteration over a leap second provider with next() and next_back() mixed *)
 TrXLeapIter == IsOp("x_leap_iter") /\ KeepAll /\ UNCHANGED sw /\ Has(E.res, "v") /\ E.res.v = X!LeapIter(E.calls, E.len)
+(* Polynomial::correction_duration for a constant-offset polynomial and Epoch::precise_timescale_conversion:   *)
+(* the stored constant is the one given (from_constant_offset) ; its value in float seconds is within the       *)
+(* resolution of C18; the correction is that float times one second by the rule of C18 (rate and acceleration   *)
+(* contribute exact zeros); the result is the plain conversion minus (forward) or plus (backward) the           *)
+(* correction, and an error when the target is the scale the epoch is already in.                               *)
+TrXPrecise == IsOp("x_precise") /\ KeepAll /\ UNCHANGED sw /\ IsDur(E.stored) /\ IsFin(E.secs) /\ IsDur(E.corr)
+               /\ DV(E.stored) = DV(E.constant)
+               /\ Dy!WithinUlps(E.secs, DV(E.stored), Ur[4].m, Ur[4].m, 4) /\ F64SignOK(E.secs, DV(E.stored))
+               /\ DV(E.corr) = F64TimesUnit(E.secs, 4)
+               /\ IF E.to = e.ts THEN Has(E.res, "err")
+                  ELSE /\ IsEp(E.res) /\ E.res.ts = E.to
+                       /\ \E rc \in ConvCands(E.to) :
+                            DV(E.res) = (IF E.forward THEN M!DSub(rc.v, DV(E.corr)) ELSE M!DAdd(rc.v, DV(E.corr)))
 Dev_F1X == /\ Open("F1") /\ IsOp("x_approx") /\ KeepE /\ KeepS /\ KeepW /\ IsDur(E.res)
            /\ d' = M!F1Round(d, Ur[X!LargestUnit(d)]) /\ d' \notin X!ApproxSet(d) /\ DurIs(E.res, d') /\ out' = <<"dur", d'>>
            /\ Known("F1")
@@ -797,7 +810,7 @@ ExtrasNext ==
   \/ Dev_F1X
   \/ TrXApprox \/ TrXConsts \/ TrXUnitU8 \/ TrXScaleU8 \/ TrXWithHms \/ TrXWithTimeFrom \/ TrXFreq
   \/ TrXNextBack \/ TrXLen \/ TrXNextAt
-  \/ TrXMonth \/ TrXWeekdayName \/ TrXSeriesText \/ TrXHash \/ TrXLeapIter
+  \/ TrXPrecise \/ TrXMonth \/ TrXWeekdayName \/ TrXSeriesText \/ TrXHash \/ TrXLeapIter
 
 -----------------------------------------------------------------------------
 TraceInit == l = Start /\ M!DInit /\ X!EInit /\ sw = B!Zero /\ X!SInit /\ W!WInit
